@@ -215,6 +215,10 @@ def run_part(prop, part, tier, seed, tag=""):
     cmd = ["timeout", str(part.get("timeout", 1200)), hb, family, "-prop", prop, "-tier", tier,
            "-seed", str(seed), "-out", d] + part.get("args", [])
     env = dict(os.environ, GOMAXPROCS=os.environ.get("GOMAXPROCS", "16"))
+    if part.get("race"):
+        # a data race inside the implementation stops the harness at once (exit 66): the scenario
+        # it was running is the replay
+        env["GORACE"] = "halt_on_error=1"
     rc, out = sh(cmd, cwd=ROOT, env=env)
     res = {"dir": d, "harness_rc": rc, "harness_out": out[:1500] + "\n...\n" + out[-2500:]}
     if rc != 0:
